@@ -62,8 +62,8 @@ Section Proofs.
   Variable Ang : Type.
   Variable ang_add : Ang -> Ang -> Ang.
   Variable ang_opp : Ang -> Ang.
-  Variable ang_small : Ang -> bool.
-  Variable ang_eqmod : Ang -> Ang -> bool.
+  Variable ang_small : bool -> Ang -> bool.
+  Variable ang_eqmod : bool -> Ang -> Ang -> bool.
   Variable ang_mpi2 : Ang.
   Variable ang_mpi4 : Ang.
   Variable T : tables.
@@ -366,7 +366,7 @@ Section Proofs.
   Proof.
     induction fuel as [|k IH]; simpl; intros c_old c_new c Hi H.
     - inversion H; subst; assumption.
-    - destruct (circ_eq Ang ang_eqmod c_old c_new); [inversion H; subst; assumption|].
+    - destruct (circ_eq Ang ang_eqmod T c_old c_new); [inversion H; subst; assumption|].
       destruct (merge_rotations_fn Ang ang_add ang_eqmod T c_old) as [m|]; simpl in H; [|discriminate].
       destruct (remove_small_rotations Ang ang_small T m rq) as [s0|]; simpl in H; [|discriminate].
       destruct (remove_redundant_gates Ang ang_opp ang_eqmod ang_mpi2 ang_mpi4 T s0 rq) as [r|] eqn:Hr; simpl in H; [|discriminate].
